@@ -9,7 +9,9 @@
 #define MY_IDX(self) ((self)->m_channel->ep[0] == (self)->m_bound_to ? 0 : 1)
 #define T_FLIGHT_OLD(self) ((int64_t)OLD((self)->m_bytes_in_flight) == OLD((self)->m_outstanding_packet_sizes.sum))
 /* every outstanding sequence number is below the next one to be assigned */
-#define T_SEQ(self) ((self)->m_outstanding_packet_sizes.bound <= (self)->m_next_outgoing_seq && (self)->m_next_outgoing_seq < ((uint64_t)1 << 62))
+#define T_SEQ(self) ((self)->m_outstanding_packet_sizes.bound <= (self)->m_next_outgoing_seq)
+#define T_SEQ_SMALL2(self) ((self)->m_next_outgoing_seq < ((uint64_t)1 << 42) && (self)->m_next_incoming_seq < ((uint64_t)1 << 42))
+#define T_SEQ_SMALL(self) ((self)->m_next_outgoing_seq < ((uint64_t)1 << 40) && (self)->m_next_incoming_seq < ((uint64_t)1 << 40))
 #define INV_tcp(self) (T_BOOLS(self) && T_SLOTS(self) && T_NUM(self) && T_FLIGHT(self) && T_SEQ(self) && SMI_OK((self)->m_outstanding_packet_sizes) && SMP_OK((self)->m_reorder_buffer) && \
    INV_hrtimer(&(self)->m_connect_timer) && INV_hrtimer(&(self)->m_recv_timer) && EP_VALID((self)->m_bound_to))
 #define CH_FRESH(self) ((self)->m_channel == (struct channel *)0 ? 1 : __CPROVER_is_fresh((self)->m_channel, sizeof(struct channel)))
